@@ -205,24 +205,9 @@ Proof.
 Qed.
 
 (* ================================================================ GetFilterTargets: what every returned object satisfies *)
-(* R sv o: o is an inventory object the permission filter allowed in some frame state sv that is either
-   clean or holds a service of the inventory *)
-Definition pm_svok (inv : list pm_obj) (sv : option pm_obj) : Prop :=
-  sv = None \/ exists s, sv = Some s /\ In s inv /\ po_type s = PmService.
-Definition pm_ret (pf : option pm_filter) (inv : list pm_obj) (o : pm_obj) : Prop :=
-  In o inv /\ exists sv, pm_svok inv sv /\ pm_eval_opt pf sv o = PmT.
-(* clean variant *)
+(* o is an inventory object for which the combined permission filter, evaluated on o alone, is true *)
 Definition pm_ret_clean (pf : option pm_filter) (inv : list pm_obj) (o : pm_obj) : Prop :=
   In o inv /\ pm_eval_opt pf None o = PmT.
-
-Lemma pm_last_service_in l s : pm_last_service l = Some s -> In s l /\ po_type s = PmService.
-Proof.
-  induction l as [|o r IH]; cbn; [discriminate|].
-  destruct (pm_last_service r) as [s'|].
-  - intros H. inversion H; subst. destruct (IH eq_refl). auto.
-  - unfold pm_is_service. destruct (pm_type_eqb (po_type o) PmService) eqn:E; [|discriminate].
-    intros H. inversion H; subst. apply pm_type_eqb_eq in E. auto.
-Qed.
 
 Lemma pm_last_service_none l : (forall o, In o l -> po_type o = PmHost) -> pm_last_service l = None.
 Proof.
@@ -231,82 +216,76 @@ Proof.
   unfold pm_is_service. rewrite (H o) by (left; reflexivity). reflexivity.
 Qed.
 
-Lemma pm_frame_sv_in l s : pm_frame_sv l = Some s -> In s l /\ po_type s = PmService.
-Proof. unfold pm_frame_sv. apply pm_last_service_in. Qed.
 Lemma pm_frame_sv_none l : (forall o, In o l -> po_type o = PmHost) -> pm_frame_sv l = None.
 Proof. unfold pm_frame_sv. apply pm_last_service_none. Qed.
 Lemma pm_frame_sv_nil : pm_frame_sv [] = None.
 Proof. reflexivity. Qed.
 
-Lemma pm_svok_last inv acc : (forall o, In o acc -> In o inv) -> pm_svok inv (pm_frame_sv acc).
+(* the namespace of one by-name type iteration only holds targets of that type: every evaluation in it is the
+   evaluation on the object alone *)
+Lemma pm_frame_clean pf t fr o :
+  (forall x, In x fr -> po_type x = t) -> po_type o = t ->
+  pm_eval_opt pf (pm_frame_sv fr) o = pm_eval_opt pf None o.
 Proof.
-  intros H. destruct (pm_frame_sv acc) as [s|] eqn:E; [|left; reflexivity].
-  right. exists s. apply pm_frame_sv_in in E. destruct E. auto.
+  intros Hfr Ho. apply pm_eval_opt_clean. destruct t; [right|left; assumption].
+  apply pm_frame_sv_none. assumption.
 Qed.
 
 Section Names.
   Variables (pf : option pm_filter) (inv : list pm_obj).
 
-  Lemma pm_name_one_ok t n acc o :
-    (forall x, In x acc -> In x inv) ->
-    pm_name_one pf inv t n acc = inr o ->
-    pm_ret pf inv o /\ po_type o = t /\ po_name o = n /\ pm_eval_opt pf (pm_frame_sv acc) o = PmT.
+  Lemma pm_name_one_ok t n fr o :
+    (forall x, In x fr -> po_type x = t) ->
+    pm_name_one pf inv t n fr = inr o ->
+    pm_ret_clean pf inv o /\ po_type o = t /\ po_name o = n /\ pm_lookup inv t n = Some o.
   Proof.
-    intros Hacc. unfold pm_name_one. destruct (pm_lookup inv t n) as [o'|] eqn:L; [|discriminate].
-    destruct (pm_eval_opt pf (pm_frame_sv acc) o') eqn:E; try discriminate.
-    intros H. inversion H; subst. apply pm_lookup_some in L. destruct L as (A & B & C).
-    repeat split; auto. exists (pm_frame_sv acc). split; [apply pm_svok_last; assumption|assumption].
+    intros Hfr. unfold pm_name_one. destruct (pm_lookup inv t n) as [o'|] eqn:L; [|discriminate].
+    destruct (pm_eval_opt pf (pm_frame_sv fr) o') eqn:E; try discriminate.
+    intros H. inversion H; subst. destruct (pm_lookup_some _ _ _ _ L) as (A & B & C).
+    rewrite (pm_frame_clean pf t fr o Hfr B) in E. repeat split; auto.
   Qed.
 
-  (* P: any property of (state-at-evaluation, object) that we want for all result elements *)
-  Variable P : pm_obj -> Prop.
-  Variable Pstep : forall t n acc o, (forall x, In x acc -> P x) ->
-    pm_name_one pf inv t n acc = inr o -> P o.
-
-  Lemma pm_name_list_P t ns : forall acc res,
-    (forall x, In x acc -> P x) -> pm_name_list pf inv t ns acc = inr res -> forall x, In x res -> P x.
+  Lemma pm_name_list_ok t ns : forall acc fr res,
+    (forall x, In x fr -> po_type x = t) -> (forall x, In x acc -> pm_ret_clean pf inv x) ->
+    pm_name_list pf inv t ns acc fr = inr res -> forall x, In x res -> pm_ret_clean pf inv x.
   Proof.
-    induction ns as [|n r IH]; intros acc res Hacc H; cbn in H.
+    induction ns as [|n r IH]; intros acc fr res Hfr Hacc H; cbn in H.
     - inversion H; subst. assumption.
-    - destruct (pm_name_one pf inv t n acc) as [e|o] eqn:E; [discriminate|].
-      eapply IH; [|exact H]. intros x Hx. apply in_app_or in Hx. destruct Hx as [Hx|[<-|[]]]; [auto|].
-      eapply Pstep; eassumption.
+    - destruct (pm_name_one pf inv t n fr) as [e|o] eqn:E; [discriminate|].
+      destruct (pm_name_one_ok t n fr o Hfr E) as (A & B & _).
+      eapply IH; [| |exact H].
+      + intros x Hx. apply in_app_or in Hx. destruct Hx as [Hx|[<-|[]]]; auto.
+      + intros x Hx. apply in_app_or in Hx. destruct Hx as [Hx|[<-|[]]]; auto.
   Qed.
 
-  Lemma pm_names_type_P q t acc res :
-    (forall x, In x acc -> P x) -> pm_names_type pf inv q t acc = inr res -> forall x, In x res -> P x.
+  Lemma pm_names_type_ok q t acc res :
+    (forall x, In x acc -> pm_ret_clean pf inv x) ->
+    pm_names_type pf inv q t acc = inr res -> forall x, In x res -> pm_ret_clean pf inv x.
   Proof.
     intros Hacc H. unfold pm_names_type in H.
     destruct (pm_q_single q t) as [n|].
-    - destruct (pm_name_one pf inv t n acc) as [e|o] eqn:E; [discriminate|].
-      assert (forall x, In x (acc ++ [o]) -> P x) as Hacc'.
-      { intros x Hx. apply in_app_or in Hx. destruct Hx as [Hx|[<-|[]]]; [auto|]. eapply Pstep; eassumption. }
+    - destruct (pm_name_one pf inv t n []) as [e|o] eqn:E; [discriminate|].
+      destruct (pm_name_one_ok t n [] o (fun x (Hx : In x []) => match Hx with end) E) as (A & B & _).
+      assert (forall x, In x (acc ++ [o]) -> pm_ret_clean pf inv x) as Hacc'.
+      { intros x Hx. apply in_app_or in Hx. destruct Hx as [Hx|[<-|[]]]; auto. }
       destruct (pm_q_plural q t) as [ns|].
-      + eapply pm_name_list_P; eassumption.
+      + eapply pm_name_list_ok; [|exact Hacc'|exact H]. intros x [<-|[]]. assumption.
       + inversion H; subst. assumption.
     - destruct (pm_q_plural q t) as [ns|].
-      + eapply pm_name_list_P; eassumption.
+      + eapply pm_name_list_ok; [|exact Hacc|exact H]. intros x [].
       + inversion H; subst. assumption.
   Qed.
 
-  Lemma pm_by_names_P q tys : forall acc res,
-    (forall x, In x acc -> P x) -> pm_by_names pf inv q tys acc = inr res -> forall x, In x res -> P x.
+  Lemma pm_by_names_ok q tys : forall acc res,
+    (forall x, In x acc -> pm_ret_clean pf inv x) ->
+    pm_by_names pf inv q tys acc = inr res -> forall x, In x res -> pm_ret_clean pf inv x.
   Proof.
     induction tys as [|t r IH]; intros acc res Hacc H; cbn in H.
     - inversion H; subst. assumption.
     - destruct (pm_names_type pf inv q t acc) as [e|acc'] eqn:E; [discriminate|].
-      eapply IH; [|exact H]. eapply pm_names_type_P; eassumption.
+      eapply IH; [|exact H]. eapply pm_names_type_ok; eassumption.
   Qed.
 End Names.
-
-Lemma pm_by_names_ret pf inv q tys res :
-  pm_by_names pf inv q tys [] = inr res -> forall x, In x res -> pm_ret pf inv x.
-Proof.
-  intros H.
-  assert (forall t n acc o, (forall x, In x acc -> pm_ret pf inv x) -> pm_name_one pf inv t n acc = inr o -> pm_ret pf inv o) as Pstep.
-  { intros t n acc o Hacc Hn. eapply pm_name_one_ok; [|exact Hn]. intros x Hx. apply Hacc in Hx. destruct Hx. assumption. }
-  exact (pm_by_names_P pf inv (pm_ret pf inv) Pstep q tys [] res (fun x (Hx : In x []) => match Hx with end) H).
-Qed.
 
 Lemma pm_fast_collect_ret pf sv inv t ns : forall l,
   pm_fast_collect pf sv inv t ns = inr l -> forall x, In x l -> In x inv /\ po_type x = t /\ pm_eval_opt pf sv x = PmT.
@@ -344,7 +323,7 @@ Lemma pm_by_filter_ret fast pf sv inv t uf fv l :
   forall x, In x l -> In x inv /\ po_type x = t /\ pm_eval_opt pf sv x = PmT.
 Proof.
   unfold pm_by_filter. intros H x Hx. destruct uf as [f|].
-  - destruct (if fast then pm_targets t f fv else None) as [ns|].
+  - destruct (if fast && negb (pm_shadowed fv) then pm_targets t f fv else None) as [ns|].
     + eapply pm_fast_collect_ret; eassumption.
     + destruct (pm_scan_ret _ _ _ _ _ _ _ H x Hx) as (A & B & C & _). auto.
   - destruct (pm_scan_ret _ _ _ _ _ _ _ H x Hx) as (A & B & C & _). auto.
@@ -354,147 +333,39 @@ Qed.
 Lemma pm_filter_targets_ok fast u perm tys q inv objs c :
   pm_filter_targets fast u perm tys q inv = (c, PmOk objs) ->
   exists pf res, pm_check_permission u perm = Some pf /\ pm_by_names pf inv q tys [] = inr res /\
-    (objs = res \/ exists t l, pm_by_filter fast pf (pm_frame_sv res) inv t (pq_filter q) (pq_fvars q) = inr l
+    (objs = res \/ exists t l, pm_by_filter fast pf None inv t (pq_filter q) (pq_fvars q) = inr l
                                /\ In t tys /\ objs = res ++ l).
 Proof.
-  unfold pm_filter_targets. destruct (pm_check_permission u perm) as [pf|]; [|discriminate].
+  unfold pm_filter_targets. rewrite pm_frame_sv_nil. destruct (pm_check_permission u perm) as [pf|]; [|discriminate].
   destruct (pm_by_names pf inv q tys []) as [e|res] eqn:N; [discriminate|].
   destruct (pm_is_some (pq_filter q) || pm_is_nil res).
   - destruct (pq_type q) as [qt|]; [|discriminate].
     destruct qt; try discriminate; cbn [pm_qtype_in].
     + destruct (existsb (pm_type_eqb PmHost) tys) eqn:E; [|discriminate].
-      destruct (pm_by_filter fast pf (pm_frame_sv res) inv PmHost (pq_filter q) (pq_fvars q)) as [e|l] eqn:BF; [discriminate|].
+      destruct (pm_by_filter fast pf None inv PmHost (pq_filter q) (pq_fvars q)) as [e|l] eqn:BF; [discriminate|].
       intros H. inversion H; subst. exists pf, res. split; [reflexivity|]. split; [exact N|]. right.
       exists PmHost, l. split; [assumption|]. split; [|reflexivity].
       apply existsb_exists in E. destruct E as (x & Hx & Hex). apply pm_type_eqb_eq in Hex. subst. assumption.
     + destruct (existsb (pm_type_eqb PmService) tys) eqn:E; [|discriminate].
-      destruct (pm_by_filter fast pf (pm_frame_sv res) inv PmService (pq_filter q) (pq_fvars q)) as [e|l] eqn:BF; [discriminate|].
+      destruct (pm_by_filter fast pf None inv PmService (pq_filter q) (pq_fvars q)) as [e|l] eqn:BF; [discriminate|].
       intros H. inversion H; subst. exists pf, res. split; [reflexivity|]. split; [exact N|]. right.
       exists PmService, l. split; [assumption|]. split; [|reflexivity].
       apply existsb_exists in E. destruct E as (x & Hx & Hex). apply pm_type_eqb_eq in Hex. subst. assumption.
   - intros H. inversion H; subst. eexists; eexists. split; [reflexivity|]. split; [exact N|]. left; reflexivity.
 Qed.
 
-(* C18_only_permitted, general form (no hypothesis): every returned object is an inventory object that the
-   combined permission filter allowed - in a frame that is clean or holds a service of the inventory *)
-Theorem pm_only_permitted_general fast u perm tys q inv objs c :
-  pm_filter_targets fast u perm tys q inv = (c, PmOk objs) ->
-  exists pf, pm_check_permission u perm = Some pf /\ forall o, In o objs -> pm_ret pf inv o.
-Proof.
-  intros H. destruct (pm_filter_targets_ok _ _ _ _ _ _ _ _ H) as (pf & res & Hc & Hn & Hobjs).
-  exists pf. split; [assumption|]. intros o Ho.
-  pose proof (pm_by_names_ret _ _ _ _ _ Hn) as Hres.
-  destruct Hobjs as [->|(t & l & Hbf & Ht & ->)]; [auto|].
-  apply in_app_or in Ho. destruct Ho as [Ho|Ho]; [auto|].
-  destruct (pm_by_filter_ret _ _ _ _ _ _ _ _ Hbf o Ho) as (A & B & C).
-  split; [assumption|]. exists (pm_frame_sv res). split; [|assumption].
-  apply pm_svok_last. intros x Hx. apply Hres in Hx. destruct Hx. assumption.
-Qed.
-
-(* ---- the clean case: outside the signature of the known finding every evaluation is the one the statement means *)
-Definition pm_type_in (t : pm_type) (tys : list pm_type) : bool := existsb (pm_type_eqb t) tys.
-
-Lemma pm_sig_cases tys q : pm_sig_stale tys q = false ->
-  pm_type_in PmHost tys = false \/ pm_type_in PmService tys = false
-  \/ (pq_service q = None /\ (pq_services q = None \/ pq_services q = Some [])).
-Proof.
-  unfold pm_sig_stale, pm_type_in. intros H.
-  destruct (existsb (pm_type_eqb PmHost) tys); [|left; reflexivity].
-  destruct (existsb (pm_type_eqb PmService) tys); [|right; left; reflexivity].
-  right; right. cbn in H. destruct (pq_service q); [discriminate|]. split; [reflexivity|].
-  destruct (pq_services q) as [[|x l]|]; auto. discriminate.
-Qed.
-
-(* by-name phase, clean: under ~signature, each evaluated object is a service or the accumulator holds no service *)
-Lemma pm_by_names_clean pf inv q tys res :
-  pm_sig_stale tys q = false ->
-  pm_by_names pf inv q tys [] = inr res ->
-  (forall x, In x res -> pm_ret_clean pf inv x) /\
-  (pm_type_in PmHost tys = false \/ pm_frame_sv res = None).
-Proof.
-  intros Hsig H. apply pm_sig_cases in Hsig.
-  (* generalise over the suffix of tys still to process *)
-  assert (forall tys', (forall t, In t tys' -> In t tys) -> forall acc r,
-    (forall x, In x acc -> pm_ret_clean pf inv x /\ In (po_type x) tys /\
-                           (po_type x = PmService -> pm_q_single q PmService <> None \/ exists n ns, pm_q_plural q PmService = Some (n :: ns))) ->
-    pm_by_names pf inv q tys' acc = inr r ->
-    forall x, In x r -> pm_ret_clean pf inv x /\ In (po_type x) tys /\
-                        (po_type x = PmService -> pm_q_single q PmService <> None \/ exists n ns, pm_q_plural q PmService = Some (n :: ns))) as G.
-  { induction tys' as [|t r' IH]; intros Hsub acc r Hacc Hr; cbn in Hr.
-    - inversion Hr; subst. assumption.
-    - destruct (pm_names_type pf inv q t acc) as [e|acc'] eqn:E; [discriminate|].
-      eapply IH; [intros; apply Hsub; right; assumption| |exact Hr].
-      (* one type *)
-      assert (In t tys) as Ht by (apply Hsub; left; reflexivity).
-      set (Q := fun x => pm_ret_clean pf inv x /\ In (po_type x) tys /\
-                 (po_type x = PmService -> pm_q_single q PmService <> None \/ exists n ns, pm_q_plural q PmService = Some (n :: ns))).
-      assert (forall n acc0 o (viaplural : pm_q_single q t = Some n \/ exists ns, pm_q_plural q t = Some ns /\ In n ns),
-                 (forall x, In x acc0 -> Q x) -> pm_name_one pf inv t n acc0 = inr o -> Q o) as Step.
-      { intros n acc0 o Hvia Hacc0 Hn.
-        assert (forall x, In x acc0 -> In x inv) as Hinv0 by (intros x Hx; apply Hacc0 in Hx; destruct Hx as [[A _] _]; exact A).
-        destruct (pm_name_one_ok pf inv t n acc0 o Hinv0 Hn) as ((Hin & _) & Hty & _ & Hev).
-        unfold Q. split; [split; [assumption|]|split].
-        - rewrite <- Hev. symmetry. apply pm_eval_opt_clean.
-          destruct (po_type o) eqn:To; [|left; reflexivity]. right.
-          apply pm_frame_sv_none. intros x Hx. destruct (po_type x) eqn:Tx; [reflexivity|exfalso].
-          apply Hacc0 in Hx. destruct Hx as (_ & Hxt & Hxs). rewrite Tx in *.
-          (* a service in acc and a host being evaluated: contradicts ~signature *)
-          subst t. destruct Hsig as [Hh|[Hs|(Hs1 & Hs2)]].
-          + unfold pm_type_in in Hh. assert (existsb (pm_type_eqb PmHost) tys = true) by (apply existsb_exists; exists PmHost; auto). congruence.
-          + unfold pm_type_in in Hs. assert (existsb (pm_type_eqb PmService) tys = true) by (apply existsb_exists; exists PmService; auto). congruence.
-          + destruct (Hxs eq_refl) as [A|(n0 & ns0 & A)]; cbn in A; [congruence|]. destruct Hs2; congruence.
-        - rewrite Hty. assumption.
-        - rewrite Hty. intros ->. destruct Hvia as [Hv|(ns & Hp & Hn')].
-          + left. congruence.
-          + right. destruct ns as [|n1 ns1]; [destruct Hn'|]. eauto. }
-      (* names_type with Step *)
-      unfold pm_names_type in E.
-      assert (forall ns, (exists ns0, pm_q_plural q t = Some ns0 /\ forall n, In n ns -> In n ns0) ->
-                forall acc0 res0, (forall x, In x acc0 -> Q x) -> pm_name_list pf inv t ns acc0 = inr res0 -> forall x, In x res0 -> Q x) as LStep.
-      { induction ns as [|n ns IHn]; intros Hsubn acc0 res0 Hacc0 Hl; cbn in Hl.
-        - inversion Hl; subst. assumption.
-        - destruct (pm_name_one pf inv t n acc0) as [e0|o0] eqn:E0; [discriminate|].
-          eapply IHn; [| |exact Hl].
-          + destruct Hsubn as (ns0 & A & B). exists ns0. split; [assumption|]. intros; apply B; right; assumption.
-          + intros x Hx. apply in_app_or in Hx. destruct Hx as [Hx|[<-|[]]]; [auto|].
-            eapply Step; [|exact Hacc0|exact E0]. right. destruct Hsubn as (ns0 & A & B). exists ns0. split; [assumption|apply B; left; reflexivity]. }
-      destruct (pm_q_single q t) as [n|] eqn:S1.
-      + destruct (pm_name_one pf inv t n acc) as [e0|o0] eqn:E0; [discriminate|].
-        assert (forall x, In x (acc ++ [o0]) -> Q x) as Hacc1.
-        { intros x Hx. apply in_app_or in Hx. destruct Hx as [Hx|[<-|[]]]; [apply Hacc; assumption|].
-          eapply Step; [left; reflexivity|exact Hacc|exact E0]. }
-        destruct (pm_q_plural q t) as [ns|] eqn:P1.
-        * exact (LStep ns (ex_intro _ ns (conj eq_refl (fun n1 Hn1 => Hn1))) (acc ++ [o0]) acc' Hacc1 E).
-        * inversion E; subst. exact Hacc1.
-      + destruct (pm_q_plural q t) as [ns|] eqn:P1.
-        * exact (LStep ns (ex_intro _ ns (conj eq_refl (fun n1 Hn1 => Hn1))) acc acc' Hacc E).
-        * inversion E; subst. exact Hacc. }
-  specialize (G tys (fun t Ht => Ht) [] res (fun x (Hx : In x []) => match Hx with end) H).
-  split; [intros x Hx; apply G; assumption|].
-  destruct (pm_type_in PmHost tys) eqn:Hh; [right|left; reflexivity].
-  destruct (pm_frame_sv res) as [s|] eqn:Ls; [exfalso|reflexivity].
-  apply pm_frame_sv_in in Ls. destruct Ls as [Hs Ts]. destruct (G s Hs) as (_ & Hst & Hsn). rewrite Ts in *.
-  destruct Hsig as [A|[A|(A1 & A2)]].
-  - congruence.
-  - unfold pm_type_in in A. assert (existsb (pm_type_eqb PmService) tys = true) by (apply existsb_exists; exists PmService; auto). congruence.
-  - destruct (Hsn eq_refl) as [B|(n0 & ns0 & B)]; cbn in B; [congruence|]. destruct A2; congruence.
-Qed.
-
+(* C18_only_permitted, in terms of the combined filter: every returned object is an inventory object for which
+   the combined permission filter - evaluated on that object alone - is true *)
 Theorem pm_only_permitted_clean fast u perm tys q inv objs c :
-  pm_sig_stale tys q = false ->
   pm_filter_targets fast u perm tys q inv = (c, PmOk objs) ->
   exists pf, pm_check_permission u perm = Some pf /\ forall o, In o objs -> pm_ret_clean pf inv o.
 Proof.
-  intros Hsig H. destruct (pm_filter_targets_ok _ _ _ _ _ _ _ _ H) as (pf & res & Hc & Hn & Hobjs).
+  intros H. destruct (pm_filter_targets_ok _ _ _ _ _ _ _ _ H) as (pf & res & Hc & Hn & Hobjs).
   exists pf. split; [assumption|]. intros o Ho.
-  destruct (pm_by_names_clean _ _ _ _ _ Hsig Hn) as [Hres Hls].
+  pose proof (pm_by_names_ok pf inv q tys [] res (fun x (Hx : In x []) => match Hx with end) Hn) as Hres.
   destruct Hobjs as [->|(t & l & Hbf & Ht & ->)]; [auto|].
   apply in_app_or in Ho. destruct Ho as [Ho|Ho]; [auto|].
-  destruct (pm_by_filter_ret _ _ _ _ _ _ _ _ Hbf o Ho) as (A & B & C).
-  split; [assumption|]. rewrite <- C. symmetry. apply pm_eval_opt_clean.
-  destruct Hls as [Hh|Hn0]; [|right; assumption].
-  left. destruct (po_type o) eqn:To; [|reflexivity]. subst t. exfalso.
-  unfold pm_type_in in Hh. assert (existsb (pm_type_eqb PmHost) tys = true) by (apply existsb_exists; exists PmHost; auto). congruence.
+  destruct (pm_by_filter_ret _ _ _ _ _ _ _ _ Hbf o Ho) as (A & B & C). split; assumption.
 Qed.
 
 (* ================================================================ reject first *)
@@ -517,31 +388,48 @@ Qed.
 Definition pm_names (q : pm_query) (t : pm_type) (n : pm_str) : Prop :=
   pm_q_single q t = Some n \/ exists ns, pm_q_plural q t = Some ns /\ In n ns.
 
-Lemma pm_name_list_denied pf inv t n o : forall ns acc,
-  In n ns -> pm_lookup inv t n = Some o -> (forall sv, pm_eval_opt pf sv o <> PmT) ->
-  exists e, pm_name_list pf inv t ns acc = inl e.
+Lemma pm_name_one_denied pf inv t n o fr :
+  (forall x, In x fr -> po_type x = t) -> pm_lookup inv t n = Some o -> pm_eval_opt pf None o <> PmT ->
+  exists e, pm_name_one pf inv t n fr = inl e.
 Proof.
-  induction ns as [|m r IH]; intros acc Hin L Hno; [destruct Hin|]. cbn.
-  destruct (pm_name_one pf inv t m acc) as [e|o'] eqn:E; [eauto|].
-  destruct Hin as [->|Hin]; [|eauto].
-  unfold pm_name_one in E. rewrite L in E. destruct (pm_eval_opt pf (pm_frame_sv acc) o) eqn:Ev; try discriminate.
-  exfalso. eapply Hno. eassumption.
+  intros Hfr L Hno. unfold pm_name_one. rewrite L.
+  rewrite (pm_frame_clean pf t fr o Hfr) by (apply pm_lookup_some in L; tauto).
+  destruct (pm_eval_opt pf None o); eauto. congruence.
+Qed.
+
+Lemma pm_name_list_denied pf inv t n o : forall ns acc fr,
+  (forall x, In x fr -> po_type x = t) ->
+  In n ns -> pm_lookup inv t n = Some o -> pm_eval_opt pf None o <> PmT ->
+  exists e, pm_name_list pf inv t ns acc fr = inl e.
+Proof.
+  induction ns as [|m r IH]; intros acc fr Hfr Hin L Hno; [destruct Hin|]. cbn.
+  destruct (pm_name_one pf inv t m fr) as [e|o'] eqn:E; [eauto|].
+  destruct Hin as [->|Hin].
+  - destruct (pm_name_one_denied pf inv t n o fr Hfr L Hno) as (e & He). congruence.
+  - apply IH; auto. intros x Hx. apply in_app_or in Hx. destruct Hx as [Hx|[<-|[]]]; [auto|].
+    unfold pm_name_one in E. destruct (pm_lookup inv t m) as [o2|] eqn:L2; [|discriminate].
+    destruct (pm_eval_opt pf (pm_frame_sv fr) o2); try discriminate. inversion E; subst.
+    apply pm_lookup_some in L2. tauto.
 Qed.
 
 Lemma pm_names_type_denied pf inv q t n o acc :
-  pm_names q t n -> pm_lookup inv t n = Some o -> (forall sv, pm_eval_opt pf sv o <> PmT) ->
+  pm_names q t n -> pm_lookup inv t n = Some o -> pm_eval_opt pf None o <> PmT ->
   exists e, pm_names_type pf inv q t acc = inl e.
 Proof.
   intros Hn L Hno. unfold pm_names_type.
   destruct Hn as [Hs|(ns & Hp & Hin)].
-  - rewrite Hs. unfold pm_name_one. rewrite L. destruct (pm_eval_opt pf (pm_frame_sv acc) o) eqn:Ev; eauto.
-    exfalso. eapply Hno. eassumption.
-  - rewrite Hp. destruct (match pm_q_single q t with None => inr acc | Some n0 => _ end) as [e|acc1]; [eauto|].
-    eapply pm_name_list_denied; eassumption.
+  - rewrite Hs. destruct (pm_name_one_denied pf inv t n o [] (fun x (Hx : In x []) => match Hx with end) L Hno) as (e & ->). eauto.
+  - rewrite Hp. destruct (pm_q_single q t) as [n0|].
+    + destruct (pm_name_one pf inv t n0 []) as [e|o0] eqn:E; [eauto|].
+      eapply pm_name_list_denied; try eassumption. intros x [<-|[]].
+      unfold pm_name_one in E. destruct (pm_lookup inv t n0) as [o2|] eqn:L2; [|discriminate].
+      destruct (pm_eval_opt pf (pm_frame_sv []) o2); try discriminate. inversion E; subst.
+      apply pm_lookup_some in L2. tauto.
+    + eapply pm_name_list_denied; try eassumption. intros x [].
 Qed.
 
 Lemma pm_by_names_denied pf inv q t n o : forall tys acc,
-  In t tys -> pm_names q t n -> pm_lookup inv t n = Some o -> (forall sv, pm_eval_opt pf sv o <> PmT) ->
+  In t tys -> pm_names q t n -> pm_lookup inv t n = Some o -> pm_eval_opt pf None o <> PmT ->
   exists e, pm_by_names pf inv q tys acc = inl e.
 Proof.
   induction tys as [|t' r IH]; intros acc Hin Hn L Hno; [destruct Hin|]. cbn.
@@ -550,32 +438,14 @@ Proof.
   destruct (pm_names_type_denied pf inv q t n o acc Hn L Hno) as (e & He). congruence.
 Qed.
 
+(* an object addressed by name for which the combined filter (on the object alone) is not true: error *)
 Theorem pm_by_name_denied fast u perm tys q inv t n o pf :
   In t tys -> pm_names q t n -> pm_lookup inv t n = Some o ->
-  pm_check_permission u perm = Some pf -> (forall sv, pm_eval_opt pf sv o <> PmT) ->
+  pm_check_permission u perm = Some pf -> pm_eval_opt pf None o <> PmT ->
   exists c e, pm_filter_targets fast u perm tys q inv = (c, PmErr e).
 Proof.
   intros Hin Hn L Hc Hno. unfold pm_filter_targets. rewrite Hc.
   destruct (pm_by_names_denied pf inv q t n o tys [] Hin Hn L Hno) as (e & ->). eauto.
-Qed.
-
-(* clean corollary: a service, or any object under a filter that does not throw/accept in stale frames *)
-Corollary pm_by_name_denied_service fast u perm tys q inv n o pf :
-  In PmService tys -> pm_names q PmService n -> pm_lookup inv PmService n = Some o ->
-  pm_check_permission u perm = Some pf -> pm_eval_opt pf None o <> PmT ->
-  exists c e, pm_filter_targets fast u perm tys q inv = (c, PmErr e).
-Proof.
-  intros Hin Hn L Hc Hno. eapply pm_by_name_denied; try eassumption.
-  intros sv. rewrite pm_eval_opt_clean; [assumption|]. left. apply pm_lookup_some in L. tauto.
-Qed.
-
-(* single-type QueryDescriptions (object query / modify / delete handlers) *)
-Lemma pm_names_type_single_clean pf inv q t n o :
-  pm_q_single q t = Some n -> pm_lookup inv t n = Some o -> pm_eval_opt pf None o <> PmT ->
-  exists e, pm_names_type pf inv q t [] = inl e.
-Proof.
-  intros Hs L Hno. unfold pm_names_type. rewrite Hs. unfold pm_name_one. rewrite L. rewrite pm_frame_sv_nil.
-  destruct (pm_eval_opt pf None o); eauto. congruence.
 Qed.
 
 (* ================================================================ the access paths agree *)
@@ -679,8 +549,26 @@ Section Paths.
     snd (pm_filter_targets true u perm [po_type o] (pm_q_by_type (po_type o) (Some (PmFName PmScHost (po_name o))) []) inv) = PmOk objs ->
     (In o objs <-> pm_eval_opt pf None o = PmT).
   Proof.
-    intros Ht. rewrite pm_filter_targets_type_only. unfold pm_by_filter.
+    intros Ht. rewrite pm_filter_targets_type_only. unfold pm_by_filter. cbn [andb negb pm_shadowed existsb].
     assert (pm_targets (po_type o) (PmFName PmScHost (po_name o)) [] = Some [po_name o]) as -> by (rewrite Ht; reflexivity).
+    destruct (pm_fast_collect pf None inv (po_type o) [po_name o]) as [e|l] eqn:F; [discriminate|].
+    intros H. inversion H; subst. split.
+    - intros Ho. destruct (pm_fast_collect_ret _ _ _ _ _ _ F o Ho) as (_ & _ & A). assumption.
+    - intros A. eapply pm_fast_collect_complete; [exact F|left; reflexivity|assumption].
+  Qed.
+
+  (* the fast path for services: host.name == "<host>" && service.name == "<short name>" (either order);
+     the full name of a service is <host>!<short name> (Service's NameComposer) *)
+  Lemma pm_path_fast_service objs (swap : bool) :
+    po_type o = PmService -> po_name o = po_host o ++ [33] ++ po_short o ->
+    let f := if swap then PmFAnd (PmFName PmScService (po_short o)) (PmFName PmScHost (po_host o))
+             else PmFAnd (PmFName PmScHost (po_host o)) (PmFName PmScService (po_short o)) in
+    snd (pm_filter_targets true u perm [po_type o] (pm_q_by_type (po_type o) (Some f) []) inv) = PmOk objs ->
+    (In o objs <-> pm_eval_opt pf None o = PmT).
+  Proof.
+    intros Ht Hname f. rewrite pm_filter_targets_type_only. unfold pm_by_filter. cbn [andb negb pm_shadowed existsb].
+    assert (pm_targets (po_type o) f [] = Some [po_name o]) as ->.
+    { rewrite Ht, Hname. unfold f. destruct swap; reflexivity. }
     destruct (pm_fast_collect pf None inv (po_type o) [po_name o]) as [e|l] eqn:F; [discriminate|].
     intros H. inversion H; subst. split.
     - intros Ho. destruct (pm_fast_collect_ret _ _ _ _ _ _ F o Ho) as (_ & _ & A). assumption.
@@ -700,36 +588,14 @@ Proof.
   - destruct (pm_eval_opt pf None o); [reflexivity|discriminate|discriminate].
 Qed.
 
-(* ================================================================ the known finding on the model *)
-(* user: { permission = "actions/*", filter = {{ service.name == "p" }} }; inventory: host "h", host "w",
-   service "h!p".  Addressed as type=Host + filter=true the hosts are refused; with service=h!p in the same
-   request the permission filter accepts every host. *)
-Definition pm_ex_h : pm_obj := {| po_type := PmHost; po_name := [104]; po_short := [104]; po_host := [104]; po_vars := []; po_hvars := [] |}.
-Definition pm_ex_w : pm_obj := {| po_type := PmHost; po_name := [119]; po_short := [119]; po_host := [119]; po_vars := []; po_hvars := [] |}.
-Definition pm_ex_s : pm_obj := {| po_type := PmService; po_name := [104;33;112]; po_short := [112]; po_host := [104]; po_vars := []; po_hvars := [] |}.
-Definition pm_ex_inv := [pm_ex_h; pm_ex_w; pm_ex_s].
-Definition pm_ex_user := [{| pe_perm := [97;99;116;105;111;110;115;47;42]; pe_filter := Some (PmFName PmScService [112]) |}].
-Definition pm_ex_perm : pm_str := [97;99;116;105;111;110;115;47;120].   (* actions/x *)
-Definition pm_ex_q (svc : option pm_str) : pm_query :=
-  {| pq_host := None; pq_service := svc; pq_hosts := None; pq_services := None; pq_type := Some PmQHost;
-     pq_filter := Some PmFTrue; pq_fvars := [] |}.
-
-Theorem pm_stale_refuted :
-  pm_spec_allow pm_ex_user pm_ex_perm pm_ex_w = false /\
-  snd (pm_filter_targets true pm_ex_user pm_ex_perm [PmHost; PmService] (pm_ex_q None) pm_ex_inv) = PmErr PmErrScript /\
-  snd (pm_filter_targets true pm_ex_user pm_ex_perm [PmHost; PmService] (pm_ex_q (Some [104;33;112])) pm_ex_inv)
-    = PmOk [pm_ex_s; pm_ex_h; pm_ex_w] /\
-  pm_sig_stale [PmHost; PmService] (pm_ex_q (Some [104;33;112])) = true.
-Proof. vm_compute. repeat split. Qed.
-
 (* ================================================================ packaged statements for Properties_C18.v *)
 Theorem pm_only_permitted fast u perm tys q inv objs c :
-  perm <> [] -> pm_sig_stale tys q = false ->
+  perm <> [] ->
   pm_filter_targets fast u perm tys q inv = (c, PmOk objs) ->
   forall o, In o objs -> In o inv /\ pm_spec_allow u perm o = true.
 Proof.
-  intros Hne Hsig H o Ho.
-  destruct (pm_only_permitted_clean _ _ _ _ _ _ _ _ Hsig H) as (pf & Hc & Hall).
+  intros Hne H o Ho.
+  destruct (pm_only_permitted_clean _ _ _ _ _ _ _ _ H) as (pf & Hc & Hall).
   destruct (Hall o Ho) as [Hin Hev]. split; [assumption|].
   exact (pm_granted_allow u perm pf None o Hne Hc Hev).
 Qed.
@@ -744,11 +610,18 @@ Theorem pm_paths_agree u perm inv o pf :
                 (In o objs <-> pm_eval_opt pf None o = PmT /\ match uf with None => True | Some f => pm_eval fv None f o = PmT end)) /\
   (forall objs, po_type o = PmHost ->
                 snd (pm_filter_targets true u perm [po_type o] (pm_q_by_type (po_type o) (Some (PmFName PmScHost (po_name o))) []) inv) = PmOk objs ->
+                (In o objs <-> pm_eval_opt pf None o = PmT)) /\
+  (forall objs (swap : bool), po_type o = PmService -> po_name o = po_host o ++ [33] ++ po_short o ->
+                snd (pm_filter_targets true u perm [po_type o]
+                       (pm_q_by_type (po_type o)
+                          (Some (if swap then PmFAnd (PmFName PmScService (po_short o)) (PmFName PmScHost (po_host o))
+                                 else PmFAnd (PmFName PmScHost (po_host o)) (PmFName PmScService (po_short o)))) []) inv) = PmOk objs ->
                 (In o objs <-> pm_eval_opt pf None o = PmT)).
 Proof.
   intros Hc Hl.
   split; [intros fast; apply pm_path_by_name; assumption|].
   split; [intros fast; apply pm_path_by_list; assumption|].
   split; [intros uf fv objs H; eapply pm_path_by_type; eassumption|].
-  intros objs Ht H. eapply pm_path_fast_host; eassumption.
+  split; [intros objs Ht H; eapply pm_path_fast_host; eassumption|].
+  intros objs swap Ht Hn H. eapply (pm_path_fast_service u perm inv o pf Hc Hl objs swap Ht Hn). exact H.
 Qed.
